@@ -72,6 +72,9 @@ def seed_fault(version, fault, pos, exhaustive=False):
     hashes = [n for n in allnodes if n.findtext("name") == "#"]
     if lib:
         own = lambda n: _get_attr(n, "inLibrary") is not None     # noqa
+        if pos % 4 == 3 and fault not in ("duplicate-node", "library-node-named-as-standard", "foreign-in-library"):
+            # every fourth position lies in the standard part of the partnered library
+            own = lambda n: _get_attr(n, "inLibrary") is None     # noqa
         nodes_l = [n for n in nodes if own(n)]
         hashes_l = [n for n in hashes if own(n)]
     else:
